@@ -6,6 +6,12 @@ BASELINE_OFF = "cd /repo && go build ./... && go test -mod=mod -vet=off -count=1
 
 CLAIMED = {
  # id: (level text, level note, design ref)
+ "C01": ("Deductive proof that enc/v1 follows the published format (README as oracle): identifier tables and aliases are mutually inverse; nonce = 7-byte prefix | BE32(segment number) | last flag; exactly one Seal/Open per segment with that nonce; header and payload keys are HKDF-SHA256 with the documented info/salt; the header is scheme | LF | manifest | LF | base64(HMAC) | LF within 64 KiB; processSegments splits the abstract source into consecutively numbered segments of exactly S bytes with only the last one shorter, non-empty and flagged, independently of how the reader chunks its answers (universally quantified (n, err)); key-name options.",
+         "Assumes AEAD/HKDF/HMAC/base64/JSON/io.Pipe contracts (encv1_libs.spec, crypto.spec, hmac_binary.spec). 'An independent implementation decrypts it' is reduced to 'the code equals the README's spec functions'; the goroutine/pipe hand-off is io.Pipe's contract; the round trip follows from these facts plus AEAD inverse (paper step).",
+         "DESIGN.md §6 C01"),
+ "C02": ("Deductive proof, relative to ideal AEAD/MAC contracts, of the ordering and bookkeeping obligations: processSegments starts only after VerifyHeaderSignature returned nil; a wrong-length unwrapped key is replaced by 32 zero bytes; DecryptSegment writes only Open's result and nothing on failure; clean close only after an accepted final segment (known finding: the empty-stream path, registered in known_findings.json); source-reader errors close the pipe with that error; counter never wraps.",
+         "INT-CTXT and MAC unforgeability are assumptions; prefix property of released bytes is argued on paper from the per-segment facts. Known finding (format-level): a document cut after its header decrypts to the empty message.",
+         "DESIGN.md §6 C02"),
  "C03": ("Deductive proof (govc: VCs generated from go/ssa of /repo, discharged by z3/cvc5) of the parts of the property that are this repository's code: dispatch tables against the Supported*Algorithms lists, sentinel errors and no-output-on-error for every helper, PKCS#7 pad/unpad against RFC 5652 as quantified postconditions, AEAD plumbing (what is handed to Seal/Open and how the output is split), AES-CBC-HMAC-SHA2 structure per RFC 7518 (key split, MAC input order AD|IV|CT|AL, tag checked before decryption), key-wrap length/integrity facts. Primitive ciphers are assumed contracts.",
          "Assumes: libspec contracts of the standard library and jwx (listed in evidence trusted_base), govc's SSA->SMT encoding, solver soundness. Interop with independent implementations and strength of tamper rejection are reduced to 'code equals the spec functions' plus the primitives' assumed contracts; RFC 3394 functional correctness of aeskw is not proved.",
          "DESIGN.md §6 C03"),
@@ -27,6 +33,9 @@ CLAIMED = {
  "C14": ("Deductive proof of linearizability of the concurrent map, atomic-counter map and concurrent slice by the coarse-grained-locking argument: every method has one linearizing critical section whose effect on the abstract state equals the sequential model (state after acquisition = arbitrary, constrained by the lock invariant), including the double-checked GetOrCreate; pointer-level contracts of ring.Ring's straight-line methods.",
          "Meta-theorem (mutual exclusion => ordering by acquisition yields a legal sequential history) is stated, not mechanised. ring loops (Len/Move/New/Do) and ring.Buffered are not yet under contract.",
          "DESIGN.md §6 C14, §3.3"),
+ "C15": ("Deductive proof of ttlcache's sequential semantics against an abstract map (ghost has/val/exp on the haxmap): Set stores (value, now + min(ttl, maxTTL)) for that key only; Get returns the value iff present and strictly before expiry; Delete; Cleanup deletes only expired entries it enumerated; Reset; Stop closes once.",
+         "Assumes haxmap and k8s clock contracts (haxmap_clock.spec), a ForEach summary (explicit at-assume), ttl <= 292 years. Periodic ticking and the goroutine join in Stop are not covered.",
+         "DESIGN.md §6 C15"),
  "C16": ("Deductive proof that the stream wrappers implement the io.Reader contract over the right abstract content for every source satisfying that contract (universally quantified (n, err) answers = every chunking): limit, EOF/ErrStreamTooLarge discrimination, concatenation order, tee log, close-once bookkeeping through Read and WriteTo.",
          "Assumes the io.Reader/io.Closer/io.Writer contracts in /verif/libspec/io.spec (ghost content/position/close-count per interface value), distinct source objects, govc's encoding, solver soundness.",
          "DESIGN.md §6 C16"),
